@@ -182,11 +182,37 @@ def gen_sites(rng, tier):
     return types, sites
 
 
-def gen_unwraps():
+def gen_unwraps(rng=None, n_random=0):
     """(decls, sites): each site: (sid, kind, text, cases) with cases = list of (arg, expect_fault, expected_value)"""
     decls = ["UE :: enum { A, B: i64, C: struct { x: i64 }, D | 40 };"]
     sites = []
     sid = [5000]
+    # random enums whose explicit discriminants are packed into the range the automatic ones use (any order, before or
+    # after automatic variants): every variant must keep a tag of its own, so #unwrap(e, Vj) faults iff the value is not Vj
+    for k in range(n_random):
+        nv = rng.range(2, 6)
+        style = rng.pick(["packed", "packed", "packed_all", "auto"])
+        packed = rng.sample(list(range(0, nv + 2)), nv)
+        parts, mks = [], []
+        for i in range(nv):
+            pl = rng.pick([None, "i64", "i64", "u8"])
+            disc = ""
+            if (style == "packed" and rng.chance(1, 2)) or (style == "packed_all" and i > 0):
+                disc = f" | {packed[i]}"
+            parts.append(f"V{i}" + (f": {pl}" if pl else "") + disc)
+            val = 100 * (k + 1) + i
+            if pl == "u8":
+                val = val % 200
+            mks.append((pl, val, f"RE{k}.V{i}" + (f".({val})" if pl else "")))
+        decls.append(f"RE{k} :: enum {{ {', '.join(parts)} }};")
+        mk = f"    e : RE{k} = {mks[0][2]};\n" + "".join(f"    if sel == {i} {{ e = {mks[i][2]}; }}\n" for i in range(1, nv))
+        for j in range(nv):
+            pl, val, _ = mks[j]
+            sid[0] += 1
+            s_ = sid[0]
+            show = f"vr_i64({s_ * 10 + 3}, i64.(x));" if pl else f"vr_i64({s_ * 10 + 3}, {val});"
+            body = mk + f"    vr_ev({s_ * 10 + 1});\n    x := #unwrap(e, RE{k}.V{j});\n    vr_ev({s_ * 10 + 2});\n    {show}"
+            sites.append((s_, "enum_packed_discriminants", f"usite{s_} :: (sel: i64) {{\n{body}\n}}", [(i, i != j, None if i != j else val) for i in range(nv)]))
 
     def add(kind, body, cases):
         sid[0] += 1
@@ -235,6 +261,25 @@ def literal_cases():
     return out
 
 
+def const_index_cases():
+    """indices that are compile-time constants but not bare literals. The statement leaves two correct outcomes for an
+    out-of-range one: rejected at compile time, or accepted and aborting at run time before the access. In range: must work."""
+    forms = [("paren", "({i})"), ("paren2", "(({i}))"), ("const_local", "K"), ("const_global", "GK"), ("cast", "usize.({i})"), ("sum", "{h} + {r}")]
+    out = []
+    for n in (1, 3):
+        for i in (n - 1, n, n + 4):
+            for fname, form in forms:
+                idx = form.format(i=i, h=i // 2, r=i - i // 2)
+                for via in ("arr", "ptr"):
+                    for rw in ("r", "w"):
+                        acc = "a" if via == "arr" else "p"
+                        access = f"x := {acc}[{idx}];\n    vr_i64(3, i64.(x));" if rw == "r" else f"{acc}[{idx}] = 9;\n    vr_i64(3, 9);"
+                        text = (R.PRELUDE + f"GK : usize : {i};\nmain :: () -> i32 {{\n    K : usize : {i};\n    g0 : i64 = 111;\n    a := i64.[{', '.join(['5'] * n)}];\n    g1 : i64 = 222;\n"
+                                f"    p := ^mut a;\n    vr_ev(1);\n    {access}\n    vr_ev(2);\n    vr_i64(4, g0);\n    vr_i64(5, g1);\n    0\n}}\n")
+                        out.append((f"cidx_{fname}_{via}_{rw}_{n}_{i}", text, i >= n, fname))
+    return out
+
+
 def run(tier, seed):
     t0 = time.time()
     C.build_cli()
@@ -242,7 +287,7 @@ def run(tier, seed):
     work = C.fresh_dir("C10")
     rng = C.Rng(seed, 10)
     types, sites = gen_sites(rng, tier)
-    udecls, usites = gen_unwraps()
+    udecls, usites = gen_unwraps(C.Rng(seed, 1010), 6 if tier == "quick" else 60)
     viol, inconc, samples, sigs = [], [], [], set()
     evals = 0
     # split index sites over several programs
@@ -371,6 +416,57 @@ def run(tier, seed):
             inconc.append(f"{name}: rejected for another reason: {c.diag_kinds()[:2]}")
         elif not bad and not c.accepted:
             viol.append({"key": "literal_in_range_rejected", "sig": f"literal_in_range_rejected|{name}", "what": f"{name}: a literal index in range is rejected: {c.brief()[:300]}", "witness": {"files": {"main.capy": text}}})
+    # constant index expressions that are not bare literals: rejected at compile time or checked at run time, never unchecked
+    def do_cidx(c):
+        name, text, bad, fname = c
+        d = os.path.join(work, name)
+        cc = R.compile_capy(d, {"main.capy": text})
+        r = None
+        if cc.accepted:
+            r = R.link_and_run(d, cc.obj)
+        return c, cc, r
+    ccases = const_index_cases()
+    if tier == "quick":
+        must = [c for c in ccases if c[3] == "paren" and c[2]][:6]
+        ccases = must + [c for c in C.Rng(seed, 1011).sample(ccases, 60) if c not in must]
+    n_ct = n_rt = 0
+    for (name, text, bad, fname), cc, r in C.pmap(do_cidx, ccases):
+        wit = {"files": {"main.capy": text}}
+        if cc.internal_error:
+            viol.append({"key": "internal_error", "sig": "internal_error|" + cc.panic_sig(), "what": f"constant index case {name}: internal compiler error", "witness": wit})
+            continue
+        if cc.timed_out or (r is not None and (r.link_failed or r.timed_out)):
+            inconc.append(f"{name}: watchdog/link")
+            continue
+        evals += 1
+        sigs.add(("const_index", fname, bad, cc.accepted))
+        if not cc.accepted:
+            n_ct += 1
+            if not bad:
+                viol.append({"key": "const_index_in_range_rejected", "sig": f"const_index_in_range_rejected|{fname}", "what": f"{name}: an in-range constant index is rejected: {cc.brief()[:300]}", "witness": wit})
+            elif not any("too big" in k or "index" in k.lower() or "bounds" in k.lower() for k in cc.diag_kinds()):
+                inconc.append(f"{name}: rejected for another reason: {cc.diag_kinds()[:2]}")
+            continue
+        n_rt += 1
+        log = R.parse_log(r.out)
+        markers = [i for t, i, _ in log if t == "E"]
+        vals = {i: v.strip() for t, i, v in log if t == "I"}
+        texts = [v for t, _, v in log if t == "T" and v.strip()]
+        if bad:
+            probs = []
+            if r.rc != 1:
+                probs.append(f"exit status {r.rc} (signal {r.sig}) instead of 1")
+            if 2 in markers or 3 in vals:
+                probs.append("execution continued after the out-of-range access")
+            if not any("index out of bounds" in t for t in texts):
+                probs.append(f"no 'index out of bounds' message (text: {texts[-2:]})")
+            if probs:
+                viol.append({"key": "const_index_unchecked", "sig": f"const_index_unchecked|{fname}", "what": f"{name}: accepted out-of-range constant index is not checked at run time: " + "; ".join(probs),
+                             "witness": dict(wit, stdout=r.out[-400:])})
+        else:
+            if r.rc != 0 or 2 not in markers or vals.get(4) != "111" or vals.get(5) != "222" or vals.get(3) not in ("5", "9"):
+                viol.append({"key": "const_index_in_range_wrong", "sig": f"const_index_in_range_wrong|{fname}", "what": f"{name}: in-range constant index misbehaves: rc={r.rc} markers={markers} values={vals}",
+                             "witness": dict(wit, stdout=r.out[-400:])})
     # de-duplicate violations by key (keep 3 per key)
     kept, cnt = [], {}
     for v in viol:
@@ -378,7 +474,8 @@ def run(tier, seed):
         if cnt[v["key"]] <= 3:
             kept.append(v)
     rep = {"evaluations": evals, "distinct_nontrivial": len(sigs), "violations": kept, "samples": samples,
-           "counters": {"index_sites": len(sites), "unwrap_sites": len(usites), "executions": evals, "literal_cases": len(lits), "violations_total": len(viol)},
+           "counters": {"index_sites": len(sites), "unwrap_sites": len(usites), "executions": evals, "literal_cases": len(lits), "const_index_cases": len(ccases),
+                        "const_index_rejected_at_compile_time": n_ct, "const_index_checked_at_run_time": n_rt, "violations_total": len(viol)},
            "notes": [], "exhaustive": False}
     return C.finish("C10", tier, seed, t0, "exploration", rep, ASSUME, RULE, min_evals=300, inconclusive=inconc)
 
